@@ -27,11 +27,14 @@ Moduli ==
      <<"dword-even", Dense(14, Seed + 1, 6)>>,
      <<"large3-noshift", Dense(24, Seed + 2, 255)>>, <<"large3-shift", Dense(24, Seed + 3, 1)>>,
      <<"large3-even", [i \in 1..20 |-> IF i = 1 THEN 0 ELSE IF i = 20 THEN 5 ELSE Lcg8(i, Seed)]>>,
+     \* top bit set and nothing else but a low one: no normalisation shift, and the smallest modulus of its length,
+     \* so that products of short operands exceed it (the conditional subtraction of the short-product path)
+     <<"large3-min", Add(PowerOfTwo(191), One)>>, <<"large5-min", Add(PowerOfTwo(319), NN(12345))>>,
      <<"large7", Dense(55, Seed + 4, 37)>>, <<"large12-mersenne", Sub(PowerOfTwo(607), One)>>,
      <<"large25", Dense(200, Seed + 5, 129)>>, <<"large40", Dense(317, Seed + 6, 3)>> >>
 NMod == IF Big THEN Len(Moduli) ELSE Len(Moduli) - 2
 Ops == <<"reduce", "add", "sub", "mul", "div", "neg", "dbl", "sqr", "pow", "inv", "mix">>
-NShapes == 10
+NShapes == 12
 
 VARIABLES phase, p1, p2, p3
 vars == <<phase, p1, p2, p3>>
@@ -60,6 +63,10 @@ Case ==
               [] p3 = 8 -> <<U(big), U(big)>>                              \* equal operands: squaring shortcut
               [] p3 = 9 -> <<U(Dense(nb, Salt + 3, 1)), U(Dense(nb, Salt + 4, 1 + (Salt % 200)))>>
               [] p3 = 10 -> <<I(1, Dense(nb + 1, Salt + 5, 3)), ISub(mi, U(Mod(Dense(nb + 1, Salt + 5, 3), m)))>>
+              \* short operands whose lengths add up to the length of m, as large as they can be: the product is not
+              \* divided, only compared with m (shapes 11: all ones, 12: dense with a high top byte)
+              [] p3 = 11 -> LET i == Max2(1, (2 * nb) \div 3) IN <<U(Sub(ShlBytes(One, i), One)), U(Sub(ShlBytes(One, Max2(1, nb - i)), One))>>
+              [] p3 = 12 -> LET i == Max2(1, nb \div 3) IN <<U(Dense(i, Salt + 6, 255)), U(Dense(Max2(1, nb - i), Salt + 7, 250))>>
       \* exponents: 0, 1, 2, 3, 2^16 + 1, one word, two words, three words (short for long moduli)
       ecap == IF nb <= 16 THEN 24 ELSE IF nb <= 60 THEN 12 ELSE 3
       e == CASE p3 = 1 -> <<>>
@@ -72,8 +79,10 @@ Case ==
              [] p3 = 8 -> Dense(Min2(16, ecap), Salt, 255)
              [] p3 = 9 -> Dense(Min2(24, ecap), Salt, 17)
              [] p3 = 10 -> PowerOfTwo(Min2(64, 8 * ecap - 1))
+             [] p3 = 11 -> NN(5)
+             [] p3 = 12 -> NN(6)
       m2 == IF p3 % 2 = 0 THEN m ELSE Moduli[1 + ((p1 + p3) % NMod)][2]
-  IN [fam |-> name, op |-> op, m |-> mi, a |-> ab[1], b |-> ab[2], e |-> U(IF op = "pow" THEN e ELSE <<>>), m2 |-> U(m2)]
+  IN [fam |-> name, shape |-> p3, op |-> op, m |-> mi, a |-> ab[1], b |-> ab[2], e |-> U(IF op = "pow" THEN e ELSE <<>>), m2 |-> U(m2)]
 
 Emit == phase = "done" => PrintT(<<"GEN", ToJson(Case)>>)
 =============================================================================
